@@ -68,13 +68,14 @@ def rows(path):
     return out
 
 def main():
-    results = {'1': {}, '2': {}}
+    results = {'1': {}, '2': {}, '3': {}}
     for p in ['/var/tmp/results1.tsv', os.path.join(S, '_incoming', 'RESULTS.tsv'), '/var/tmp/results2.tsv']:
         results['1'].update(rows(p))
     results['2'].update(rows(os.path.join(S, '_incoming2', 'RESULTS.tsv')))
+    results['3'].update(rows(os.path.join(S, '_incoming3', 'RESULTS.tsv')))
     dropped = []
     kept = []
-    for rnd, src in (('1', '_incoming'), ('2', '_incoming2')):
+    for rnd, src in (('1', '_incoming'), ('2', '_incoming2'), ('3', '_incoming3')):
         base = os.path.join(S, src)
         if not os.path.isdir(base):
             continue
@@ -88,7 +89,8 @@ def main():
                     continue
                 key = f'{prop}/{m}'
                 r = results[rnd].get(key)
-                name = f'{prop}-{m}' if rnd == '1' else f'{prop}-r2{m}'
+                # m1,m2 = round 1; m3,m4 = round 2; m5,m6 = round 3
+                name = f'{prop}-m{int(m[1:]) + 2 * (int(rnd) - 1)}'
                 if r is None:
                     dropped.append((name, 'not re-confirmed yet'))
                     continue
